@@ -160,7 +160,11 @@ func buildPartition(run *vlib.Run, sd *gen.SchemaDesc, idx int, refresh time.Dur
 	execs := map[string]federation.ExecutorClient{}
 	for _, name := range p.services {
 		name := name
-		cfg := gen.Config{Service: name, Modes: map[string]gen.Mode{}, Include: func(typ, field string) bool {
+		nodeKeys := "full"
+		if r.Intn(2) == 0 {
+			nodeKeys = "id"
+		}
+		cfg := gen.Config{Service: name, NodeKeys: nodeKeys, Modes: map[string]gen.Mode{}, Include: func(typ, field string) bool {
 			for _, o := range p.owners[typ+"."+field] {
 				if o == name {
 					return true
